@@ -11,7 +11,8 @@ from .accmodel import Model as BreakModel, atom_matcher
 
 COMMANDS = ('help', 'list', 'filter', 'breakpoint', 'matcher', 'connection', 'resume', 'quit')
 ATOMS = ['wl_display', '.sync', '.done', '.commit', '900', 'wl_callback.done', '.bind', 'wl_registry', '.delete_id', 'wl_callback', 'A:', 'B:', 'C:', '.new', '.destroyed', '2', '3', '3a', '2b', 'wl_callback.done',
-         '(callback=)', 'wl_*', 'xdg_*', '.get_registry', 'wl_display.delete_id', '(nil)', '.global', 'wl_surface', '.commit', '4', 'B: wl_display']
+         '(callback=)', 'wl_*', 'xdg_*', '.get_registry', 'wl_display.delete_id', '(nil)', '.global', 'wl_surface', '.commit', '4', 'B: wl_display',
+         '9', '9a', '90', '9.sync', '10', '91', '8']
 MALFORMED = ['(', 'a.b.c', '[x', 'x ! y ! z']
 
 
@@ -161,7 +162,8 @@ class PluginExec:
             res.bad('closed-notice-count', 'destroy of %s address %d printed %d Closed notices' % ('known' if known else 'unknown', addr, len(closed)))
 
     def _cmd(self, op, res, n_out, n_err):
-        _, via, text = op
+        _, via, text = op[:3]
+        declined = len(op) > 3 and op[3] == 'declined'
         if via in ('wl', 'w', 'wayland'):
             full = text
         else:
@@ -174,7 +176,16 @@ class PluginExec:
             word = parts[0] if parts and parts[0] else ''
             arg = parts[1].strip() if len(parts) > 1 else ''
         cmd = resolve_command(word) if word else None
-        executed = self.drv.command(text, via)
+        G = self.drv.G
+        if declined:
+            G.state.decline_quit = True      # ... and goes on answering `n` should gdb ask again
+        n_exec = len(G.state.executed)
+        try:
+            executed = self.drv.command(text, via)
+        except G.error as e:
+            if 'Not confirmed' not in str(e):
+                raise
+            executed = G.state.executed[n_exec:]
         err = self.drv.err.buffer[n_err:]
         if cmd == 'breakpoint' and arg:
             alts, excl = split_text(arg)
@@ -202,9 +213,13 @@ class PluginExec:
                     sw = [l for l in self._new_out(n_out) if l.startswith('Switched to connection ')]
                     if sw != ['Switched to connection ' + target['name']]:
                         res.bad('connection-command-selects-other', '`connection %s` answered %r, it denotes %s (by name first, then by app id)' % (arg, sw, target['name']))
-        if cmd == 'quit':
+        if cmd == 'quit' and G.state.decline_quit:
+            # gdb asked "Quit anyway?" and the user said no: the session goes on (the user continues the program by hand). What gdb
+            # is told after later commands is not judged from here on (the tool asks to quit again, a known oddity); halting is
+            self.declined = True
+        elif cmd == 'quit':
             self.quit = True
-        if self.check_c10:
+        if self.check_c10 and not getattr(self, 'declined', False):
             want = ['quit'] if self.quit else (['continue'] if cmd == 'resume' else [])
             if executed != want:
                 res.bad('gdb-commands-after-command', 'after `%s %s` gdb executed %r, expected %r' % (via, text, executed, want))
@@ -238,7 +253,11 @@ def split_text(text):
     return alts, excl
 
 
-def gen_break_text(d):
+def gen_break_text(d, live_ids=()):
+    if live_ids and d.chance(0.25):
+        # an object of the running session by its id (and incarnation), as copied from the display
+        i = d.choice(sorted(live_ids))
+        return d.choice(['%d', '%da', '%d, wl_display', '%d.sync', '.commit ! %d']) % i
     k = d.int(0, 11)
     if k == 0: return '*'
     if k == 1: return '!'
@@ -299,7 +318,7 @@ def make_machine(col, stage, tier, check_c10, check_c15, weights):
             thread = d.choice([1, 1, 1, 2, 3])
             g = self.gens.get(addr)
             if g is None:
-                g = histgen.ConnGen(None, d.choice(['client', 'server']), dict(reuse=0.6, weights=weights))
+                g = histgen.ConnGen(None, d.choice(['client', 'server']), dict(reuse=0.6, weights=weights, id_bases=[2, 2, 2, 8, 9, 89]))
                 self.gens[addr] = g
             self.t += histgen.next_gap(d)
             if g.started and d.chance(0.35 if self.ex.sel is not None else 0.06):
@@ -377,16 +396,19 @@ def make_machine(col, stage, tier, check_c10, check_c15, weights):
             if self.ex is None or self.ex.quit:
                 return
             d = Draw(data)
-            k = d.weighted([(5, 'breakpoint'), (6, 'connection'), (4, 'resume'), (1, 'quit'), (3, 'other'), (4, 'filter')]) if check_c10 else d.weighted(
+            k = d.weighted([(5, 'breakpoint'), (6, 'connection'), (4, 'resume'), (2, 'quit'), (3, 'other'), (4, 'filter')]) if check_c10 else d.weighted(
                 [(1, 'breakpoint'), (3, 'connection'), (2, 'resume'), (3, 'other')])
             if k == 'breakpoint':
-                word, arg = d.choice(['breakpoint', 'b', 'break', 'wlbreakpoint']), gen_break_text(d)
+                word, arg = d.choice(['breakpoint', 'b', 'break', 'wlbreakpoint']), gen_break_text(d, {i for g in self.gens.values() for i in g.live if i > 1})
             elif k == 'connection':
                 word, arg = d.choice(['connection', 'c', 'conn']), d.choice(['A', 'B', 'A', 'B', 'C', 'all', 'a', 'b', 'b', 'b', 'c', 'c', 'B', 'Z', 'Q', 'nope'])
             elif k == 'resume':
                 word, arg = d.choice(['resume', 'r', 'res']), ''
             elif k == 'quit':
                 word, arg = d.choice(['quit', 'q']), ''
+                if d.chance(0.6):
+                    self._do(['cmd', d.choice(['wl', 'w']), word, 'declined'])
+                    return
             elif k == 'filter':
                 # the output filter decides what is displayed, never whether the program halts
                 word, arg = d.choice(['filter', 'f']), d.choice(['!', '*', 'wl_registry', 'wl_display', '.nope', 'B:', '* ! .sync', 'wl_callback'])
